@@ -325,8 +325,6 @@ tramp(void* p)
 {
     vt_t* t = (vt_t*)p;
     sem_wait(&t->sem);
-    if (thread_hook)
-        thread_hook((int)(t - T), t->name, 0);
     t->fn(t->arg);
     t->st = ST_DONE;
     t->at = "exit";
@@ -370,6 +368,8 @@ vs_spawn(const char* name, void (*fn)(void*), void* arg)
     pthread_attr_setstacksize(&a, 1 << 20);
     pthread_create(&t->th, &a, tramp, t);
     pthread_detach(t->th);
+    if (thread_hook)
+        thread_hook(NT, t->name, 0); // a thread is alive from its creation, whether or not it has been scheduled yet
     return NT++;
 }
 
